@@ -69,7 +69,7 @@ PAIRS = [
 # reader/writer names for the same value where they differ by convention
 ALIAS = {"cv_net": "cv", "nf": "nullifier", "nf_old": "nullifier", "encrypted_note": "note_ciphertext",
          "flag_byte": "flags", "binding_signature": "binding_sig", "vin": "vin", "vout": "vout",
-         "proof": "proof_bytes", "hash": "hash", "n": "n"}
+         "proof": "proof_bytes", "hash": "hash", "n": "n", "binding_sig": "sapling_bundle"}
 
 
 def short(p):
